@@ -26,6 +26,7 @@ struct Keyed { int key; int hint; bool operator==(const Keyed& o) const { return
 static_assert(std::is_trivially_copyable<Keyed>::value, "Keyed is trivially copyable");
 template<class P> struct PT;
 template<> struct PT<Tracked> { static Tracked make(int v, int) { return Tracked((uint64_t)v); } static int id(const Tracked& t) { return (int)t.peek(); } static constexpr const char* name = "Tracked"; };
+template<> struct PT<vrt::TrackedNX> { static vrt::TrackedNX make(int v, int) { return vrt::TrackedNX((uint64_t)v); } static int id(const vrt::TrackedNX& t) { return (int)t.peek(); } static constexpr const char* name = "TrackedNX(noexcept move, throwing copy)"; };
 template<> struct PT<Keyed> { static Keyed make(int v, int salt) { return Keyed{v, salt}; } static int id(const Keyed& k) { return k.key; } static constexpr const char* name = "Keyed(trivially copyable, == ignores a field)"; };
 template<> struct PT<double> { static double make(int v, int salt) { return v == 0 ? ((salt & 1) ? -0.0 : 0.0) : (double)v; } static int id(const double& d) { return (int)d; } static constexpr const char* name = "double(+-0.0)"; };
 
@@ -57,7 +58,9 @@ vh::Outcome run_atomic(const vh::Case& c, bool concurrent) {
                         case A_STORE: { P nv = T::make(op.v, ++salt); ag.store(nv); break; }
                         case A_ASSIGN: { P nv = T::make(op.v, ++salt); ag = nv; break; }
                         case A_EXCHANGE: { P old = ag.exchange(T::make(op.v, ++salt)); op.rv = T::id(old); break; }
-                        default: { P e = T::make(op.exp, ++salt); P d = T::make(op.v, ++salt); op.rbool = ag.compare_exchange(e, d); op.rexp = T::id(e); break; }
+                        default: { P e = T::make(op.exp, ++salt); P d = T::make(op.v, ++salt);
+                                   if (o.b & 2) op.rbool = ag.compare_exchange(e, std::move(d)); else op.rbool = ag.compare_exchange(e, d);      // desired as rvalue or lvalue
+                                   op.rexp = T::id(e); break; }
                     }
                 } catch (const vrt::InjectedFault&) {
                     if (!faults) vrt::fail("escaped-fault", "fault without a plan");
@@ -95,6 +98,8 @@ vh::Outcome run_atomic(const vh::Case& c, bool concurrent) {
 vh::Outcome disp(const vh::Case& c, bool conc) {
     int pay = (c.sched.fault_k || c.cfg.size() < 2) ? 0 : c.cfg[1] % 4;       // half Tracked, a quarter each Keyed and double (fault plans need the instrumented payload)
     bool timed = !c.cfg.empty() && c.cfg[0] % 2;
+    // fault plans: half on a payload whose moves are noexcept while its copies may throw (type-trait dependent exception specifications)
+    if (c.sched.fault_k && c.cfg.size() > 1 && (c.cfg[1] & 1)) return timed ? run_atomic<vstd::timed_mutex, vrt::TrackedNX>(c, conc) : run_atomic<vstd::mutex, vrt::TrackedNX>(c, conc);
     if (pay == 2) return timed ? run_atomic<vstd::timed_mutex, Keyed>(c, conc) : run_atomic<vstd::mutex, Keyed>(c, conc);
     if (pay == 3) return timed ? run_atomic<vstd::timed_mutex, double>(c, conc) : run_atomic<vstd::mutex, double>(c, conc);
     return timed ? run_atomic<vstd::timed_mutex>(c, conc) : run_atomic<vstd::mutex>(c, conc);
